@@ -3,13 +3,16 @@
          [2, file, crs, names, sizes, [] | [include], [] | [exclude]]  read_csv_with_schema_dict
          [3, file, crs, ncols, offs, index_map, defs]                  driver called directly, typed importer list
          [4, file, crs, names, sizes, defs]                            read_csv_with_schema_dict, typed schema
-         def = [0] string | [1, n] fixed string | [2, cats] categorical | [3, cats] categorical + free text
+               [5, crs, schema_keys, [[name, file, names, sizes, schema_fields] per table of `files`],
+             [] | [[[table, [field ...]] ...]] (include), the same for exclude]   importer.import_with_schema (Model/CsvImport.v);
+             answer: per table [names of the fields created, rows, [[indices, values] per field], trace]
+   def = [0] string | [1, n] fixed string | [2, cats] categorical | [3, cats] categorical + free text
              | [4, inv, mode] bool | [5, lo, hi, mode, inv_text, inv_val] integer      (Model/CsvTyped.v)
    answer [rows, [[indices, values] per imported column], trace (one row per kernel call, in call order)];
           a typed column answers [data] (fixed, categorical), [codes, freetext indices, freetext values]
           (categorical + free text) or [values, flags] (bool, integer) *)
 From Coq Require Import ZArith List Bool.
-From EV Require Import Res Arr Val Csv Transform CsvTyped.
+From EV Require Import Res Arr Val Csv Transform CsvTyped CsvImport.
 Import ListNotations.
 Open Scope Z_scope.
 
@@ -73,6 +76,42 @@ Definition enc_fimp (m:fimp) : val :=
 Definition enc_gdst (d:gdst (list fimp)) : val :=
   VL [VZ (g_acc d); VL (map enc_fimp (g_imps d)); vlist2 (rev (g_trace d))].
 
+Definition as_table (v:val) : option table :=
+  match v with
+  | VL [name; file; names; sizes; sch] =>
+      match as_list name, as_list file, as_list2 names, as_list sizes, as_list2 sch with
+      | Some name, Some file, Some names, Some sizes, Some sch => Some (mkTable name file names sizes sch)
+      | _, _, _, _, _ => None
+      end
+  | _ => None
+  end.
+
+Definition as_tables (v:val) : option (list table) :=
+  match v with VL l => all_some (map as_table l) | _ => None end.
+
+Definition as_seldict (v:val) : option (option seldict) :=
+  match v with
+  | VL [] => Some None
+  | VL [VL l] =>
+      match all_some (map (fun kv => match kv with
+                                     | VL [k; fs] => match as_list k, as_list2 fs with
+                                                     | Some k, Some fs => Some (k, fs)
+                                                     | _, _ => None end
+                                     | _ => None end) l) with
+      | Some d => Some (Some d)
+      | None => None
+      end
+  | _ => None
+  end.
+
+Definition imp_fuel (files:list table) : nat := fold_right (fun t a => Nat.max (drv_fuel (t_file t)) a) 200%nat files.
+
+Definition enc_tables (out:list (list (list Z) * dst)) : val :=
+  VL (map (fun r => match enc_dst (snd r) with
+                    | VL l => VL (vlist2 (fst r) :: l)
+                    | x => x
+                    end) out).
+
 Definition entry_C05 (v:val) : val :=
   match v with
   | VL [VZ 1; file; VZ crs; VZ ncols; offs; imap] =>
@@ -97,6 +136,12 @@ Definition entry_C05 (v:val) : val :=
       match as_list file, as_list2 names, as_list sizes, as_fdefs defs with
       | Some file, Some names, Some sizes, Some defs =>
           of_res' enc_gdst (tread_csv (drv_fuel file) file names sizes defs crs)
+      | _, _, _, _ => vbad
+      end
+  | VL [VZ 5; VZ crs; keys; tables; inc; exc] =>
+      match as_list2 keys, as_tables tables, as_seldict inc, as_seldict exc with
+      | Some keys, Some tables, Some inc, Some exc =>
+          of_res' enc_tables (import_with_schema (imp_fuel tables) keys tables inc exc crs)
       | _, _, _, _ => vbad
       end
   | _ => vbad
